@@ -569,8 +569,21 @@ def case_potential(p: dict) -> dict:
     pot = _make_pot(cfg)
     bos = (xb * T**2, nb, np.full(len(nb), 1.5), np.full(len(nb), 1.0))
     fer = (xf * T**2, nf, np.full(len(nf), 1.5), np.full(len(nf), 1.0))
+    keep = [np.array(a, dtype=float) for a in bos + fer]
     try:
         V = float(np.asarray(pot.potentialOneLoopThermal(bos, fer, T)))
+        # the spectrum handed over is the caller's: it must come back untouched, and the SAME tuples give the same value again
+        # (on this object, at this and at another temperature after which it is asked once more, and through the zero-temperature part)
+        r.true("spectrum-arguments-untouched", all(np.array_equal(a, b) for a, b in zip(bos + fer, keep)))
+        V2 = float(np.asarray(pot.potentialOneLoopThermal(bos, fer, T)))
+        r.close("same-spectrum-again", V2, V, 0.0)
+        pot.potentialOneLoopThermal(bos, fer, 1.7 * T)
+        cw1 = np.asarray(pot.potentialOneLoop(bos, fer))
+        V3 = float(np.asarray(pot.potentialOneLoopThermal(bos, fer, T)))
+        r.close("same-spectrum-after-other-uses", V3, V, 0.0)
+        r.true("spectrum-arguments-untouched-after-all-uses", all(np.array_equal(a, b) for a, b in zip(bos + fer, keep)))
+        cw2 = np.asarray(_make_pot(cfg).potentialOneLoop(tuple(np.array(a) for a in keep[:4]), tuple(np.array(a) for a in keep[4:])))
+        r.true("zero-temperature-part-same-as-on-fresh-copies", np.array_equal(cw1, cw2, equal_nan=True), got=repr(cw1)[:80], want=repr(cw2)[:80])
     except Exception as e:
         r.true("value-returned", False, error=repr(e))
         return r.result()
@@ -1068,7 +1081,7 @@ def run(ctx) -> None:
         mids = [dict(c) for c in rows if c["row"] < NROWS - 1]
         ctx.run_lattice("table-mid", mids, case_mid, timeout=600)
     if want("potential"):
-        ctx.run_lattice("potential", potential_cases(), case_potential, timeout=600)
+        ctx.run_lattice("potential", potential_cases(), case_potential, timeout=90)
     if want("continuity"):
         ctx.run_lattice("continuity", continuity_cases(), case_continuity, timeout=600)
     if want("cw"):
